@@ -1,5 +1,5 @@
 HOOK_COMMITS = ['261214f', '7473a7b', 'b193b9c', '236d7ec', 'e2efb1f', '03a69db', 'cfb1ec0']
-FIX_COMMITS = ['6ab1b61', 'aa5da3f', '23893cd', 'b2f43bf', '6457cb8', '9d7243e', '99e9484', '2173ac6', '62af4cc', '26a6dc2', '11fc74a', '0f6d027', 'e5a31d6', '90ab653', 'c33be62', '33896dd', '86f9aa3', '5aea712', '7455c3e', '08de576', '70dc05f', 'a801988', '4988600']
+FIX_COMMITS = ['6ab1b61', 'aa5da3f', '23893cd', 'b2f43bf', '6457cb8', '9d7243e', '99e9484', '2173ac6', '62af4cc', '26a6dc2', '11fc74a', '0f6d027', 'e5a31d6', '90ab653', 'c33be62', '33896dd', '86f9aa3', '5aea712', '7455c3e', '08de576', '70dc05f', 'a801988', '4988600', 'bf937de']
 NOTES = ('Every check: proof gate (full coq build, forbidden-construct scan, Print Assumptions allow-list = empty) '
          '+ correspondence (extracted model vs real code on corpus + generated cases) + model-free oracle; '
          'known findings in known_findings.json. See DESIGN.md.')
@@ -282,3 +282,9 @@ CLAIMED['C18']['text'] += (' FRAMES (Tui/Views.v - an executable model of what e
     'shares its location with a visible one (graphics, no text); with first-ttl k > 1 the last k-1 rows cannot be hidden from the keyboard (the level is bounded by the hop count, as the property says). The harness now varies the first ttl of the traces.')
 CLAIMED['C03']['text'] += ' Byte level: the foreign quotations of mode recv (incl. a foreign payload quoted only up to a prefix of the marker) carry a C03 tag.'
 CLAIMED['C08']['text'] += ' A run the harness has to end is judged: the open round must not have been open longer than the policy allows (hung rounds, e.g. configurations that can send nothing).'
+
+CLAIMED['C16']['text'] += (' PRECEDENCE, complete (Proofs/ConfigRules.v): one statement over an option descriptor instantiated for all 114 layered settings (plain options, protocol and address-family shortcut flags, theme items, key bindings): '
+    'command line, else file, else documented default; every derived field as a function of effective values only; build_config reports error e exactly when e is the first of the 23 documented rules, in code order, whose condition holds on the EFFECTIVE values; '
+    'same effective view -> same verdict. CAN RUN (Proofs/AcceptedRuns.v): Accept of the strategy theorems is exactly builder_accepts plus the Rust type ranges; the builder-accepted configurations that can never send are proved to publish empty rounds by the timing policy and to finish after n; '
+    'a configuration accepted by the command-line layer is never one of them; the builder refuses a command-line-accepted configuration exactly for initial_sequence > 64511 or Paris/IPv6 with sequence 0; the composed theorem c16_accepted_runs; the derived channel configuration passes the size guards. '
+    'Defect repaired (F22): a source address of the other family than the target was accepted and panicked in Channel::connect; the builder refuses it now (c16_family_mismatch_refused, c16_source_family; e2efam lines through the real builder and Channel::connect).')
